@@ -922,3 +922,67 @@ pub fn pick_idx(raw: u16, len: usize) -> usize {
 pub fn boxed<S: Strategy + 'static>(s: S) -> BoxedStrategy<S::Value> {
     s.boxed()
 }
+
+// ------------------------------------------------------------------------------------------------
+// deadlock detection
+// ------------------------------------------------------------------------------------------------
+
+/// set once a command of this process was found deadlocked: its threads (and whatever they hold)
+/// stay around, so later cases of this worker are not judged any more
+pub static AFTER_DEADLOCK: AtomicBool = AtomicBool::new(false);
+pub const SKIP_AFTER_DEADLOCK: &str = "not judged: an earlier command of this worker process is deadlocked";
+const QUIET: Duration = Duration::from_secs(60);
+const QUIET_CPU: f64 = 0.25;
+
+/// user + system CPU seconds of this process
+fn cpu_time() -> f64 {
+    // SAFETY: plain out-parameter call on a zeroed struct
+    let mut ru: libc::rusage = unsafe { std::mem::zeroed() };
+    if unsafe { libc::getrusage(libc::RUSAGE_SELF, &mut ru) } != 0 {
+        return 0.0;
+    }
+    let f = |t: libc::timeval| t.tv_sec as f64 + t.tv_usec as f64 / 1e6;
+    f(ru.ru_utime) + f(ru.ru_stime)
+}
+
+/// Run `f` on its own thread so that a deadlock can be told from slowness. Everything a library
+/// command waits for lives in this process (in-memory backend, in-memory source, its own threads,
+/// tmpfs), so a command that has not returned while no backend call is made, no source byte is read
+/// (`membe::PROGRESS`) AND the process burns no CPU for a long stretch cannot make progress any
+/// more. This is a quiescence test, not a time budget: slowness keeps burning CPU and only ever
+/// reaches the watchdog (exit 2). `Err` = deadlocked (the thread is left behind).
+pub fn run_detecting_deadlock<T: Send + 'static>(f: impl FnOnce() -> T + Send + 'static) -> Result<T, String> {
+    if AFTER_DEADLOCK.load(Ordering::SeqCst) {
+        return Err(SKIP_AFTER_DEADLOCK.to_string());
+    }
+    let (tx, rx) = std::sync::mpsc::channel();
+    std::thread::Builder::new()
+        .name("command".into())
+        .spawn(move || {
+            _ = tx.send(f());
+        })
+        .map_err(|e| format!("cannot spawn: {e}"))?;
+    let mut still_since = Instant::now();
+    let mut mark = (crate::membe::PROGRESS.load(Ordering::Relaxed), cpu_time());
+    loop {
+        match rx.recv_timeout(Duration::from_secs(1)) {
+            Ok(r) => return Ok(r),
+            Err(std::sync::mpsc::RecvTimeoutError::Disconnected) => {
+                return Err("the command thread ended without a result".to_string());
+            }
+            Err(std::sync::mpsc::RecvTimeoutError::Timeout) => {
+                let now = (crate::membe::PROGRESS.load(Ordering::Relaxed), cpu_time());
+                if now.0 != mark.0 || now.1 - mark.1 > QUIET_CPU {
+                    mark = now;
+                    still_since = Instant::now();
+                } else if still_since.elapsed() > QUIET {
+                    AFTER_DEADLOCK.store(true, Ordering::SeqCst);
+                    return Err(format!(
+                        "deadlock: the command has not returned and for {} s no backend call was made, no source byte was read and the process used less than {QUIET_CPU:.2} s of CPU",
+                        QUIET.as_secs()
+                    ));
+                }
+            }
+        }
+    }
+}
